@@ -67,6 +67,7 @@ MCInit ==
          /\ minh = [r \in Roles |-> MinH[r]]
          /\ fundingRole = FundingRole
          /\ TreeOK
+         /\ \A i \in 1..Len(tg) : MoveOK(IF i = 1 THEN 0 ELSE tg[i - 1], tg[i])
          /\ \E r \in UseRoles : \E b \in 1..(la + lb) : r \in txin[b]   \* something relevant happens
          /\ todo = tg
   /\ target = 0
